@@ -117,7 +117,7 @@ public:
         w.hasDoctype = doctype;
         // names
         int nNames = rng.range(2, 6); for (int i = 0; i < nNames; i++) elemNames.push_back(genName());
-        if (!opt.presetNames.empty()) { elemNames = opt.presetNames; if (cs != CS_FULL) for (auto& n : elemNames) for (auto& c : n) if (c > (cs == CS_ASCII ? 0x7Fu : 0xFFu)) c = U'n'; }
+        if (!opt.presetNames.empty()) { elemNames = opt.presetNames; if (cs != CS_FULL) for (auto& n : elemNames) for (auto& c : n) if (c > (cs == CS_ASCII || sjis ? 0x7Fu : 0xFFu)) c = U'n'; }
         rootName = elemNames[0]; hasDoctypeFlag = doctype;
         // entities
         if (doctype) {
@@ -161,7 +161,7 @@ public:
     std::string enc; bool bom = false; bool ucs4 = false;
 
 private:
-    Rng rng; GenOpts opt; bool xml11 = false, useNS = false; Charset cs = CS_FULL;
+    Rng rng; GenOpts opt; bool xml11 = false, useNS = false; Charset cs = CS_FULL; bool sjis = false;
     std::vector<std::u32string> elemNames; std::u32string rootName; bool hasDoctypeFlag = false; int nextId = 3;
 public:
     const std::vector<std::u32string>& names() const { return elemNames; }
@@ -182,7 +182,8 @@ private:
         else if (r < 76) { enc = "UTF-16BE"; bom = false; cs = CS_FULL; }
         else if (r < 84) { enc = "ISO-8859-1"; cs = CS_LATIN1; }
         else if (r < 88) { enc = "windows-1252"; cs = CS_LATIN1; }
-        else if (r < 92) { enc = "US-ASCII"; cs = CS_ASCII; }
+        else if (r < 90) { enc = "US-ASCII"; cs = CS_ASCII; }
+        else if (r < 92) { enc = "Shift_JIS"; cs = CS_LATIN1; sjis = true; }      // a multi-byte encoding that goes through the stateful ICU transcoder (same random pattern as the Latin-1 class, other letters)
         else if (r < 94) { enc = "UCS-4LE"; cs = CS_FULL; ucs4 = true; }
         else if (r < 96) { enc = "UCS-4BE"; cs = CS_FULL; ucs4 = true; }
         else if (r < 98) { enc = "IBM037"; cs = CS_LATIN1; }
@@ -197,7 +198,7 @@ private:
     char32_t letter() {
         unsigned r = (unsigned)rng.below(100);
         if (cs == CS_ASCII || r < 80) return (char32_t)(U'a' + rng.below(26));
-        if (cs == CS_LATIN1 || r < 92) { static const char32_t l[] = { 0xE9, 0xF1, 0xFC, 0xC0, 0xDF, 0xF8 }; return l[rng.below(6)]; }
+        if (cs == CS_LATIN1 || r < 92) { static const char32_t l[] = { 0xE9, 0xF1, 0xFC, 0xC0, 0xDF, 0xF8 }; static const char32_t jl[] = { 0x3042, 0x30A2, 0x6F22, 0x5B57, 0x4E00, 0x3093 }; size_t li = rng.below(6); return sjis ? jl[li] : l[li]; }
         static const char32_t b[] = { 0x6F22, 0x5B57, 0x03B1, 0x0416, 0x05D0, 0x0E01 }; return b[rng.below(6)];
     }
     std::u32string genNameTail(int max) { std::u32string s; int n = rng.range(0, max); for (int i = 0; i < n; i++) { unsigned r = (unsigned)rng.below(20); if (r == 0) s += U'-'; else if (r == 1) s += U'.'; else if (r == 2) s += (char32_t)(U'0' + rng.below(10)); else if (r == 3) s += U'_'; else s += letter(); } return s; }
@@ -213,7 +214,7 @@ private:
         if (r < 81) return U'\t';
         if (r < 83) { static const char32_t p[] = { U'.', U',', U';', U'-', U'=', U'/', U'!', U'?', U']', U'[', U'>' }; return p[rng.below(11)]; }
         if (cs == CS_ASCII) return (char32_t)(U'A' + rng.below(26));
-        if (cs == CS_LATIN1 || r < 90) return (char32_t)(0xA1 + rng.below(0xFF - 0xA1));
+        if (cs == CS_LATIN1 || r < 90) { char32_t v = (char32_t)(0xA1 + rng.below(0xFF - 0xA1)); return sjis ? (char32_t)(0x3041 + (v - 0xA1) % 0x52) : v; }      // (Shift_JIS: hiragana instead of Latin-1 symbols)
         if (r < 96) { static const char32_t b[] = { 0x6F22, 0x5B57, 0x03B1, 0x0416, 0x20AC, 0x2028, 0xFFFD, 0xE000, 0xD7FF, 0x0100, 0x07FF, 0x0800 }; return b[rng.below(12)]; }
         static const char32_t sp[] = { 0x10000, 0x10400, 0x1F600, 0x10FFFF, 0x2F800 }; return sp[rng.below(5)];
     }
